@@ -92,7 +92,7 @@ def model : Drv St where
           | .bal items => { s with eng := s.eng.fullSnapshot items }
           | .trade i t p => { s with eng := s.eng.trade i t p }
           | .l1 i te x => { s with eng := s.eng.bookL1 i te x }
-          | .ord i c o => { s with orders := s.orders.apply i (.snapshot ⟨c, 10, 100, .active (.opn o)⟩) }
+          | .ord i c o => { s with orders := s.orders.apply i (.snapshot ⟨c, 10, 100, .active (.opn o), 0⟩) }
         (s', obs s')
 
 /-- spec state: the delivered messages per item, in delivery order -/
